@@ -204,8 +204,8 @@ ExprOf(n, ops, sp, o) ==
     ELSE LET op == ops[o - n] IN
          Node(IF op.f = "sum" THEN sp ELSE "MultiSweep", [j \in DOMAIN op.a |-> ExprOf(n, ops, sp, op.a[j])])
 
-(* sweep.add_derivers(derivers..): a NEW sweep that is the same sweep - items, dims, constants, exclude - with     *)
-(* these derivers: Sweep(items, dims, exclude, constants).add_derivers(d..)   is Sweep(items, dims, exclude,         *)
+(* sweep.add_derivers(k = f, ..): a NEW sweep that is the same sweep - items, dims, constants, exclude - with      *)
+(* these derivers d: Sweep(items, dims, exclude, constants).add_derivers(d) is Sweep(items, dims, exclude,          *)
 (* constants, d).  Claimed for a sweep that has no derivers yet (when it has, "add" admits two readings - keep      *)
 (* both / replace - and neither the property nor the tests pin one: no claim).                                      *)
 Plain(s)           == [items |-> s.items, dims |-> s.dims, consts |-> s.consts, ders |-> s.ders, excl |-> s.excl]
@@ -220,7 +220,7 @@ DeriversOk(s, d) ==
 (* with several others, derives from it, adds the results up - and keeps using the base sweep.  Objects 1..n are    *)
 (* the operands ss, object n+k is the result of step k.  A step [f, a, d] is                                         *)
 (*     f = "product": st[a[1]].product(st[a[2]], ..)      (arguments: single sweeps with pairwise disjoint keys)     *)
-(*     f = "derive" : st[a[1]].add_derivers(d..)            (argument: a single sweep without derivers)                *)
+(*     f = "derive" : st[a[1]].add_derivers(d)            (argument: a single sweep without derivers)                *)
 (*     f = "sum"    : st[a[1]] + st[a[2]]                 (arguments: any objects)                                   *)
 (* An object is [kind, sw, combos, len].  kind = "sweep": the object is a single Sweep (an operand, a product, a     *)
 (* derived sweep) and sw says which one - THE sweep Sweep(items, dims, exclude, constants, derivers) it is           *)
